@@ -4,6 +4,7 @@ import (
 	"fmt"
 	"go/token"
 	"go/types"
+	"strings"
 
 	"golang.org/x/tools/go/ssa"
 )
@@ -70,6 +71,113 @@ func (p *Program) lookupsIn(fn *ssa.Function) []mapLookup {
 	return out
 }
 
+// missEdges returns, for every If of fn that tests the "found" flag of l, the index of its miss edge.
+func missEdges(fn *ssa.Function, l *mapLookup) map[*ssa.BasicBlock]int {
+	out := map[*ssa.BasicBlock]int{}
+	for _, b := range fn.Blocks {
+		if iff, ok := condOf(b); ok {
+			if m, onTrue := boolValueCond(l.ok)(iff.Cond); m {
+				if onTrue {
+					out[b] = 1
+				} else {
+					out[b] = 0
+				}
+			}
+		}
+	}
+	return out
+}
+
+// absentByDelete: on every path from the lookup l to `at` that does not leave a test of l's found
+// flag through its miss edge, the entry l found is deleted (same map, same holder, same key), and
+// the lock lockPath is not released anywhere between the lookup and `at`.
+func (p *Program) absentByDelete(l *mapLookup, at ssa.Instruction, lockPath string) bool {
+	fn := at.Parent()
+	skip := missEdges(fn, l)
+	if len(skip) == 0 {
+		return false
+	}
+	isAt := func(i ssa.Instruction) bool { return i == at }
+	isDel := func(i ssa.Instruction) bool {
+		call, ok := i.(*ssa.Call)
+		if !ok || !isBuiltin(call, "delete") {
+			return false
+		}
+		f, base := loadedField(call.Call.Args[0])
+		return f == l.fld && accessPath(base) == accessPath(l.base) && canon(call.Call.Args[1]) == canon(l.key)
+	}
+	// a found entry that is a scope whose closed flag was observed set is dead (only waiting to be
+	// dropped): overwriting it is a replacement, not a second object for a live identity
+	if v, isV := l.at.(ssa.Value); isV && v.Referrers() != nil && p.field("", "scope", "closed") != nil {
+		fldClosed := p.field("", "scope", "closed")
+		var found ssa.Value
+		for _, r := range *v.Referrers() {
+			if e, isE := r.(*ssa.Extract); isE && e.Index == 0 {
+				found = e
+			}
+		}
+		for _, b := range fn.Blocks {
+			iff, ok := condOf(b)
+			if !ok || found == nil {
+				continue
+			}
+			cond, neg := ssa.Value(iff.Cond), false
+			for {
+				if u, isU := cond.(*ssa.UnOp); isU && u.Op == token.NOT {
+					neg, cond = !neg, u.X
+					continue
+				}
+				break
+			}
+			if ci, isI := cond.(ssa.Instruction); isI {
+				if op := atomicOpOf(ci); op != nil && op.Field == fldClosed && op.Kind == "load" && canon(op.Base) == found {
+					if _, dup := skip[b]; !dup {
+						skip[b] = b2i(neg) // the "closed" outcome
+					}
+				}
+			}
+		}
+	}
+	if reachAvoidingF(l.at, false, skip, isAt, isDel) != nil {
+		return false
+	}
+	return !p.lockReleasedBetween(l.at, at, lockPath)
+}
+
+// lockReleasedBetween: some path from `from` to `to` executes a (non-deferred) release of lockPath,
+// directly or inside a statically resolved in-module callee (which sees the mutex under another
+// access path: there any release of a mutex held in the same struct field counts).
+func (p *Program) lockReleasedBetween(from, to ssa.Instruction, lockPath string) bool {
+	isTo := func(i ssa.Instruction) bool { return i == to }
+	lastField := lockPath
+	if i := strings.LastIndex(lockPath, "."); i >= 0 {
+		lastField = lockPath[i:]
+	}
+	inner := p.newLifter(func(i ssa.Instruction) bool {
+		op := lockOpOf(i)
+		return op != nil && strings.HasSuffix(op.Path, lastField) && (op.Op == "Unlock" || op.Op == "RUnlock")
+	}, 2)
+	rel := reachAvoiding(from, false, func(i ssa.Instruction) bool {
+		if _, isDefer := i.(*ssa.Defer); isDefer {
+			return false
+		}
+		if op := lockOpOf(i); op != nil {
+			return op.Path == lockPath && (op.Op == "Unlock" || op.Op == "RUnlock")
+		}
+		if call, ok := i.(*ssa.Call); ok {
+			if g := staticCallee(call); g != nil && p.inModule(g) {
+				return inner.May(i)
+			}
+		}
+		return false
+	}, isTo)
+	if rel == nil {
+		return false
+	}
+	// the release must be able to reach `to` to matter
+	return reachAvoiding(rel, false, isTo, nil) != nil
+}
+
 // checkDoubleChecked (A3): every insertion into an identity-bearing map is made on the miss edge of
 // a lookup of the same map with the same key, performed after the write lock that covers the
 // insertion was taken; allocations on a cached reporter happen on that same miss edge.
@@ -133,6 +241,7 @@ func (c *Ctx) checkDoubleChecked(rule string, eng *lockEngine) {
 			}
 			// a lookup of the same map/base/key after the lock whose miss edge dominates the update
 			var hit *mapLookup
+			viaDelete := false
 			for i := range lookups {
 				l := &lookups[i]
 				if l.fld != f || accessPath(l.base) != accessPath(base) || canon(l.key) != canon(mu.Key) || l.ok == nil {
@@ -143,6 +252,14 @@ func (c *Ctx) checkDoubleChecked(rule string, eng *lockEngine) {
 				}
 				if guardedByEdge(in, func(cond ssa.Value) (bool, bool) { m, t := boolValueCond(l.ok)(cond); return m, !t }) != nil {
 					hit = l
+					continue
+				}
+				// or: every path from the re-check to the insertion that does not take the miss edge
+				// deletes that very key first, inside the same uninterrupted write-locked region (the
+				// found entry is being replaced, e.g. a closed scope that is reported and dropped)
+				if c.absentByDelete(l, in, lockPath) {
+					hit = l
+					viaDelete = true
 				}
 			}
 			if hit == nil {
@@ -159,14 +276,18 @@ func (c *Ctx) checkDoubleChecked(rule string, eng *lockEngine) {
 					return
 				}
 				if _, m := ifaceCall(ci); m != nil && allocMethods[m] {
-					if !dominates(hit.at, i) || guardedByEdge(i, func(cond ssa.Value) (bool, bool) { m, t := boolValueCond(hit.ok)(cond); return m, !t }) == nil {
+					if !dominates(hit.at, i) || (!viaDelete && guardedByEdge(i, func(cond ssa.Value) (bool, bool) { m, t := boolValueCond(hit.ok)(cond); return m, !t }) == nil) {
 						okAlloc = false
 						c.bad(rule, key+":allocate", i.Pos(), "the cached reporter's Allocate call is not made on the miss edge of the write-locked re-check: it can be made more than once for one metric", c.describe(i))
 					}
 				}
 			})
 			if okAlloc {
-				c.ok(rule, key, in.Pos(), "inserted on the miss edge of a same-key lookup made under the write lock")
+				if viaDelete {
+					c.ok(rule, key, in.Pos(), "inserted after a same-key lookup made under the write lock, on its miss edge or after deleting the entry found, without releasing the lock")
+				} else {
+					c.ok(rule, key, in.Pos(), "inserted on the miss edge of a same-key lookup made under the write lock")
+				}
 			}
 		})
 	}
